@@ -686,22 +686,32 @@ pub fn long_log(plan: &Plan, stats: &mut Stats, log: &mut LogHash, vs: &mut Vec<
             2 => rng.below(300),
             3 => if rng.chance(1, 50) { rng.range(60_000, 70_000) } else { rng.below(2_000) },
             4 => if rng.chance(1, 2) { 0 } else { rng.below(40) },
+            6 => if rng.chance(1, 4) { rng.range(1 << 20, 6 << 20) } else { rng.below(900) },
             _ => rng.below(70_000),
         };
+        let len = len.min((crate::simio::POOL_SIZE - 1) as u64);
         if class == 4 && rng.chance(1, 3) {
             // A record rejected at its first byte.
             stream.push(0xFF);
             stream.extend_from_slice(pool_slice(rng.below(1 << 19), rng.below(6)));
         } else {
-            let payload = pool_slice(rng.below(1 << 19), len);
+            let payload = pool_slice(rng.below((crate::simio::POOL_SIZE as u64).saturating_sub(len).max(1)), len);
             stream.extend_from_slice(&refcodec::encode(payload, refcodec::PROD_M1, refcodec::PROD_M2));
         }
         stream.extend_from_slice(&[0xFE, 0xFD]);
         nrec += 1;
     }
+    let max_record = if class == 6 { 1_000 } else { usize::MAX };
     let tok = refcodec::tokenise(&stream);
-    let expected: Vec<&refcodec::Segment> = tok.segments.iter().filter(|s| s.decoded.is_some()).collect();
-    let judge = StreamReader::chunk_judge(usize::MAX, None);
+    let expected: Vec<&refcodec::Segment> = tok.segments.iter().filter(|s| s.decoded.as_ref().map(|d| d.len() <= max_record).unwrap_or(false)).collect();
+    // Records above the size limit are skipped; the footprint is sampled every
+    // time the judge is consulted, i.e. also in the middle of a skipped record.
+    let inner_judge = StreamReader::chunk_judge(max_record, None);
+    let peak_in_call = std::cell::Cell::new(0usize);
+    let judge = |range: std::ops::Range<u64>, iov: ConsumingIovec<'_>| -> StreamAction {
+        peak_in_call.set(peak_in_call.get().max(ByteArena::num_live_bytes().saturating_sub(base_bytes)));
+        inner_judge(range, iov)
+    };
     let mut sr = StreamReader::new();
     let mut reader = FaultyStream::new(&stream, if plan.knob("eintr") != 0 { plan.knob("sched_seed") | 1 } else { 0 });
     let bound = crate::w_codec::footprint_bound(block_opt.unwrap_or(hcobs::DEFAULT_BLOCK_SIZE).max(70_000), 1);
@@ -729,7 +739,7 @@ pub fn long_log(plan: &Plan, stats: &mut Stats, log: &mut LogHash, vs: &mut Vec<
             break;
         }
         got += 1;
-        let live = ByteArena::num_live_bytes().saturating_sub(base_bytes);
+        let live = ByteArena::num_live_bytes().saturating_sub(base_bytes).max(peak_in_call.get());
         max_live = max_live.max(live);
         if live > bound {
             push_v(vs, "C10", "C10.reader_footprint", format!("after {} records ({} bytes of log): {} live arena bytes, bound {}", got, range.end, live, bound));
